@@ -57,6 +57,9 @@ DANGEROUS_GLOBS = (
     ("marshal", "loads"), ("pickle", "loads"), ("_pickle", "loads"), ("timeit", "timeit"),
     ("code", "interact"), ("pydoc", "pipepager"), ("sndhdr", "what"), ("builtins", "len"),
     ("builtins", "str"), ("builtins", "int"), ("builtins", "print"), ("builtins", "sorted"),
+    ("verif_canary_pkg.sub", "thing"), ("verif_canary_pkg.sub.deeper", "x"),
+    ("xml.etree.cElementTree", "XML"), ("wsgiref.simple_server", "make_server"),
+    ("astunparse.printer", "Printer"), ("unittest.mock", "patch"), ("lib2to3.pgen2.driver", "load_grammar"),
 )  # fmt: skip
 FORBIDDEN = ("exec", "compile", "pickle.find_class", "marshal.loads", "os.system", "os.exec",
              "os.posix_spawn", "os.fork", "os.forkpty", "os.spawn", "subprocess.Popen", "socket.",
